@@ -64,3 +64,12 @@ def c07_naming(w):
     w(f"def xidStartNA : List (Nat × Nat) := {_pairs(_ranges(str.isidentifier))}")
     w(f"def xidContinueNA : List (Nat × Nat) := {_pairs(_ranges(lambda c: ('a' + c).isidentifier()))}")
     w("")
+
+
+@extra
+def c07_classes(w):
+    from xsdata.codegen.handlers import rename_duplicate_classes as rdc
+
+    w("-- C07: handlers/rename_duplicate_classes.py REQUIRE_UNIQUE_NAMES (StructureStyle values)")
+    w(f"def requireUniqueNames : List (List Char) := {strs([s.value for s in rdc.REQUIRE_UNIQUE_NAMES])}")
+    w("")
